@@ -118,7 +118,7 @@ Update(f) ==
 \* the caller's own dictionary changes: nothing of the instance may follow (deep copies at the boundary)
 \* (the harness holds that dictionary; in the model the step changes nothing)
 ExtMutate(k, v) ==
-  /\ made /\ repl.some /\ Step(<<"ExtMutate", k, v>>)
+  /\ made /\ repl.some /\ ~WithOwner /\ Step(<<"ExtMutate", k, v>>)      \* (with an owner the passed dictionary IS the owner's entry: OwnerMutate)
   /\ UNCHANGED <<clsdef, made, def, cfg, old, repl, synced, owner, attached>>
 
 \* obj.config[k] = v: config is handed out by reference
